@@ -247,7 +247,8 @@ static void hex_pstm(const char *label, const pstm_int *x)
     fprintf(stderr, "  (used=%d alloc=%d)\n", x->used, x->alloc);
 }
 
-/* 0 equal; 1 value/sign mismatch; 4 value equal but representation invariant broken (unclamped, negative zero, stale digits) */
+/* 0 equal; 1 value/sign mismatch; 4 value equal but not clamped or a negative zero (later comparisons would be wrong);
+ * 6 value equal and clamped but digits above 'used' hold stale data (counted, not a violation: no pstm function reads them) */
 static int cmp_res(const pstm_int *got, const BIGNUM *exp, char *what, const char *human, const char *label)
 {
     int nd = (BN_num_bits(exp) + 63) / 64, used = got->used, i, bad = 0;
@@ -303,7 +304,7 @@ static int cmp_res(const pstm_int *got, const BIGNUM *exp, char *what, const cha
         if (got->dp[i] != 0)
         {
             snprintf(what, 320, "%s: %s has the right value but digit %d above used=%d is non-zero (stale data)", human, label, i, got->used);
-            return 4;
+            return 6;
         }
     }
     return 0;
